@@ -4,6 +4,8 @@ import (
 	"fmt"
 	"time"
 
+	"github.com/zalf-rpm/Hermes2Go/hermes"
+	"verif/mc"
 	"verif/proj"
 )
 
@@ -157,6 +159,9 @@ func lwBuild(sp lwSpec) *lwInfo {
 		p.VerdColumn = true
 	}
 	p.SunColumn = df.et == 4
+	if df.et == 5 {
+		p.Layout = 1
+	}
 	for k, v := range df.cfg {
 		p.Config[k] = v
 	}
@@ -218,4 +223,28 @@ func lwSpecs(tier string, seed int, constGWOnly bool) []lwSpec {
 		}
 	}
 	return out
+}
+
+// lwRun builds, writes and runs one long world with the caller's probe and reports crashes and run errors (the worlds
+// are valid inputs); it returns the world and the result for further checks on the files.
+func lwRun(c *mc.Ctx, sp lwSpec, root string, prep func(w *lwInfo), probe func(w *lwInfo) *hermes.VerifProbe) (*lwInfo, *proj.RunResult) {
+	w := lwBuild(sp)
+	if prep != nil {
+		prep(w)
+	}
+	w.P.Write(root)
+	res := proj.Run(root, w.P.Args(root), probe(w))
+	c.Trace(1)
+	switch {
+	case res.Panic != "":
+		c.Outcome("panic")
+		c.Violate("run-panic", fmt.Sprintf("run panicked on valid input (long world %s): %s", w.Name, res.Panic), nil)
+	case !res.Success:
+		c.Outcome("run-error")
+		c.Violate("run-error", fmt.Sprintf("run failed on valid input (long world %s): %s", w.Name, res.Err), nil)
+	default:
+		c.Outcome("ok long world")
+	}
+	c.Sample(map[string]interface{}{"long_world": w.Name, "days": w.Days})
+	return w, res
 }
